@@ -78,13 +78,8 @@ def routed_ok(cfg, rp):
 
 
 def model_part(cfg, session):
-    """The model answers every request the Message Router would; a single request to an object that does not exist never reaches it
-    (the session ends there with a non-zero encapsulation status, judged on the implementation alone): the model gets the requests before it."""
-    for k, (q, sess, cx, opts) in enumerate(session):
-        if q[0] == 'unregister':
-            break
-        if q[0] == 'send' and noobj(q[2]) and routed_ok(cfg, q[1]):
-            return session[:k], k
+    """(Model.Session.unroutable now models a single request to an object that does not exist - status 8, session ends - so the model
+    gets the whole session.)"""
     return session, None
 
 
